@@ -8,6 +8,7 @@ import MidnightZK.Proofs.C10.Mont
 import MidnightZK.Proofs.C10.Field
 import MidnightZK.Proofs.C10.Prime
 import MidnightZK.Proofs.C10.Codec
+import MidnightZK.Proofs.C10.Tower
 /-!
 # C10 — every exported field type is the field it names
 -/
@@ -221,5 +222,62 @@ example : isValid Gen.BlsFq.MODULUS Gen.BlsFq.MODULUS = false ∧
 /-- `jubjub::Fr::invert`: the addition chain parsed from the source computes the exponent
 `r - 2` (Fermat inversion). -/
 theorem jubjub_invert_chain_exponent : jubjubInvertExponent = jubjubFrP - 2 := by decide +kernel
+
+/-! ## Extension towers: the formulas are the products of the quotient rings -/
+
+section Tower
+variable {F : Type} [Lean.Grind.CommRing F]
+
+/-- Quadratic extension `F[X]/(X² - β)` (`ff_ext/quadratic.rs`: BN254 `Fq2` with `β = -1`, `Fq12`
+over `Fq6` with `β = v`; also the specification of blst's `Fp2`/`Fp12`): the Karatsuba
+`mul_assign`, the default `square_assign`, the `Fq2` override of `square_assign`, and `invert`
+(`a·a⁻¹ = 1` whenever `t` inverts the norm) agree with the ring product — for every commutative
+ring and every `mul_by_nonresidue` that is multiplication by `β`. -/
+theorem fp2_mul_spec (nr : F → F) (β : F) (hnr : ∀ x, nr x = β * x) (a b : Quad F) :
+    quadMul nr a b = quadMulSpec β a b ∧ quadSquare nr a = quadMulSpec β a a ∧
+    fq2Square a = quadMulSpec (-1 : F) a a ∧
+    (∀ t, quadNorm nr a * t = 1 → quadMulSpec β a (quadInvWith t a) = ⟨1, 0⟩) :=
+  ⟨quadMul_eq nr β hnr a b, quadSquare_eq nr β hnr a, fq2Square_eq a, fun t ht => quadInv_eq nr β hnr a t ht⟩
+
+/-- The two `mul_by_nonresidue` of the quadratic level are multiplication by `1 + u` (BLS12-381)
+and by `9 + u` (BN254) in `F[u]/(u² + 1)`. -/
+theorem fp2_nonresidue_spec (a : Quad F) :
+    blsFp2MulNr a = quadMulSpec (-1 : F) a ⟨1, 1⟩ ∧ bnFq2MulNr a = quadMulSpec (-1 : F) a ⟨9, 1⟩ :=
+  ⟨blsFp2MulNr_eq a, bnFq2MulNr_eq a⟩
+
+/-- Cubic extension `F[v]/(v³ - ξ)`: `bls12_381/fp6.rs` (`MulAssign`, `square`, `invert`) and
+`ff_ext/cubic.rs` (`mul_assign`, `square_assign`, `invert`, `mul_by_nonresidue`) agree with the
+ring product; the inverse formulas satisfy `a·a⁻¹ = 1` whenever `tinv` inverts `t`. -/
+theorem fp6_mul_spec (nr : F → F) (ξ : F) (hnr : ∀ x, nr x = ξ * x) (a b : Cubic F) :
+    blsFp6Mul nr a b = cubicMulSpec ξ a b ∧ cubicMul nr a b = cubicMulSpec ξ a b ∧
+    cubicSquare nr a = cubicMulSpec ξ a a ∧ blsFp6Square nr a = cubicMulSpec ξ a a ∧
+    cubicMulNr nr a = cubicMulSpec ξ a ⟨0, 1, 0⟩ ∧
+    (∀ tinv, (cubicInvParts nr a).2 * tinv = 1 → cubicMulSpec ξ a (cubicInvWith nr tinv a) = ⟨1, 0, 0⟩) ∧
+    (∀ tinv, (blsFp6InvParts nr a).2 * tinv = 1 →
+      cubicMulSpec ξ a ⟨tinv * (blsFp6InvParts nr a).1.c0, tinv * (blsFp6InvParts nr a).1.c1,
+        tinv * (blsFp6InvParts nr a).1.c2⟩ = ⟨1, 0, 0⟩) :=
+  ⟨blsFp6Mul_eq nr ξ hnr a b, cubicMul_eq nr ξ hnr a b, (cubicSquare_eq nr ξ hnr a).1,
+   (cubicSquare_eq nr ξ hnr a).2, cubicMulNr_eq nr ξ hnr a,
+   fun t ht => cubicInv_eq nr ξ hnr a t ht, fun t ht => blsFp6Inv_eq nr ξ hnr a t ht⟩
+
+/-- Degree-12 level and the sparse products of the Miller loop (`CubicSparseMul::mul_by_1`,
+`mul_by_01`, `QuadSparseMul::mul_by_014`, `mul_by_034`): each equals the full product with the
+sparse operand, expressed with the cubic ring product (`w² = v`). -/
+theorem fp12_mul_spec (nr : F → F) (ξ : F) (hnr : ∀ x, nr x = ξ * x) (a : Cubic F)
+    (q : Quad (Cubic F)) (c0 c1 c3 c4 : F) :
+    mulBy1 nr a c1 = cubicMulSpec ξ a ⟨0, c1, 0⟩ ∧ mulBy01 nr a c0 c1 = cubicMulSpec ξ a ⟨c0, c1, 0⟩ ∧
+    mulBy014 nr q c0 c1 c4 =
+      ⟨cubicMulSpec ξ q.c0 ⟨c0, c1, 0⟩ + cubicMulNr nr (cubicMulSpec ξ q.c1 ⟨0, c4, 0⟩),
+       cubicMulSpec ξ q.c0 ⟨0, c4, 0⟩ + cubicMulSpec ξ q.c1 ⟨c0, c1, 0⟩⟩ ∧
+    mulBy034 nr q c0 c3 c4 =
+      ⟨cubicMulSpec ξ q.c0 ⟨c0, 0, 0⟩ + cubicMulNr nr (cubicMulSpec ξ q.c1 ⟨c3, c4, 0⟩),
+       cubicMulSpec ξ q.c0 ⟨c3, c4, 0⟩ + cubicMulSpec ξ q.c1 ⟨c0, 0, 0⟩⟩ :=
+  ⟨mulBy1_eq nr ξ hnr a c1, mulBy01_eq nr ξ hnr a c0 c1, mulBy014_eq nr ξ hnr q c0 c1 c4,
+   mulBy034_eq nr ξ hnr q c0 c3 c4⟩
+
+/-- Non-vacuity: over `ℤ`, `nr x = 2·x`. -/
+example : quadMul (fun x : Int => 2 * x) ⟨1, 2⟩ ⟨3, 4⟩ = ⟨19, 10⟩ := by decide
+
+end Tower
 
 end MidnightZK.C10
